@@ -129,6 +129,25 @@ class Splitters(Instance):
     def native(self, inp):
         return "splitters", {"k": self.k, "segment_size": inp.get("segment_size", self.segs[0]), "contigs": [inp.get(f"c{i}", []) for i in range(len(self.maxlens))]}
 
+    def confirm(self, viol, outs):
+        if Instance.confirm(self, viol, outs):
+            return True
+        if viol["role"] != "spl:symmetry":
+            return False
+        # relational role: the native build must itself give different singleton/duplicate sets for the transformed reference
+        from lib import replay
+        cmd, case = self.native(viol["inputs"])
+        cs = case["contigs"]
+        variants = [[[(3 - b) if b < 4 else b for b in reversed(cs[0])]] + cs[1:]]
+        if len(cs) > 1:
+            variants.append(list(reversed(cs)))
+        for prof, o in outs.items():
+            for var in variants:
+                o2 = replay.run(cmd, dict(case, contigs=var), profile=prof)
+                if "panic" in o2 or "crash" in o2 or o2.get("singletons") != o.get("singletons") or o2.get("duplicates") != o.get("duplicates"):
+                    return True
+        return False
+
     def concrete_cases(self, rnd):
         out = []
         for _ in range(16):
